@@ -139,7 +139,7 @@ A(M("c06-lift-loop-silent", ["C06"], TT, "                if bp not in used:\n  
 A(M("c06-gap-direction", ["C06"], TT, "                if (\n                    not previous.is_connected(residue)\n                    and previous.chain == residue.chain\n                ):\n                    for k in range", "                if (\n                    not residue.is_connected(previous)\n                    and previous.chain == residue.chain\n                ):\n                    for k in range", ["gap-rule-agree", "numbering-fact"]))
 A(M("c08-lazy-filter", "C08", "parser.py", "        model: list(filter(lambda atom: atom.model == model, atoms))\n", "        model: filter(lambda atom: atom.model == model, atoms)\n", "late-binding"))
 A(M("c08-tree-filtered", "C08", "parser.py", "    coords = np.array([(atom.x, atom.y, atom.z) for atom in unique_atoms_list])", "    known = [atom for atom in unique_atoms_list if atom.occupancy is not None]\n    coords = np.array([(atom.x, atom.y, atom.z) for atom in known])", "kdtree-index-space"))
-A(M("c08-dup-kept-none-loses", "C08", "parser.py", "                unique_atoms[key].occupancy is None\n                or atom.occupancy > unique_atoms[key].occupancy", "                unique_atoms[key].occupancy is not None\n                and atom.occupancy > unique_atoms[key].occupancy", "occupancy-wins"))
+A(M("c08-dup-kept-none-loses", "C08", "parser.py", "                unique_atoms[key].occupancy is None\n                or atom.occupancy > unique_atoms[key].occupancy", "                unique_atoms[key].occupancy is not None\n                and atom.occupancy > unique_atoms[key].occupancy", ["occupancy-wins", "optional-occupancy"]))  # round 6: decided on the atoms returned
 A(M("c08-dup-lower-wins", "C08", "parser.py", "                or atom.occupancy > unique_atoms[key].occupancy", "                or atom.occupancy < unique_atoms[key].occupancy", "occupancy-wins"))
 A(M("c08-clash-alias-silent", "C08", "parser.py", "        if unique_atoms_list[i].model != unique_atoms_list[j].model:\n            continue", "        a, b = unique_atoms_list[i], unique_atoms_list[j]\n        if a.model != b.model:\n            continue", kind="silent"))
 A(M("c08-clash-drop-higher", "C08", "parser.py", "            atoms_to_keep.discard(j)\n        else:\n            atoms_to_keep.discard(i)", "            atoms_to_keep.discard(i)\n        else:\n            atoms_to_keep.discard(j)", "clash-loser"))
@@ -401,6 +401,10 @@ MUTANTS.extend(_R4_W3)
 from mutants_r5_w3 import E as _R5_W3  # noqa: E402
 
 MUTANTS.extend(_R5_W3)
+# round 6 (worker W3): filter_clashing_atoms by value, falsy-but-valid values, effects of log arguments, helper-built dictionaries / tables
+from mutants_r6_w3 import E as _R6_W3  # noqa: E402
+
+MUTANTS.extend(_R6_W3)
 # round 4 (worker W1): classes added to the evaluated rules of C01, C02, C12, C13, C16
 from mutants_r4_w1 import E as _R4_W1  # noqa: E402
 
